@@ -35,11 +35,13 @@ ASSUMPTIONS = [
 FLOORS = {"quick": {"calls": 100000, "calls-with-special-values": 50000,
                     "calls-with-boundary-length-values": 3000,
                     "calls-sized-on-64KiB-multiples": 40, "calls-with-a-write-fault": 1500,
+                    "calls-right-after-a-write-fault": 1200,
                     "connect-calls": 1000},
           "thorough": {"calls": 9000000, "calls-with-special-values": 4000000,
                        "calls-with-boundary-length-values": 100000,
                        "calls-sized-on-64KiB-multiples": 4000,
-                       "calls-with-a-write-fault": 150000}}
+                       "calls-with-a-write-fault": 150000,
+                       "calls-right-after-a-write-fault": 120000}}
 SHARD_TIMEOUT = {"quick": 600, "thorough": 3000}
 
 FRAGS = ["a", "script", "x y", '"', "\\", '\\"', "\r", "\n", "\r\n", "\x00", "{", "}", "{5}",
@@ -322,6 +324,16 @@ def run_shard(tier, shard, res: Result):
                     badw = ("write-fault-not-reported", "returned %r" % (out2[1:2],))
                 elif not sent.startswith(sent2):
                     badw = ("bytes-after-a-write-fault", "wire holds more than a prefix of the command")
+                if badw is None:
+                    # the next, ordinary call on the same client writes its own command and
+                    # nothing left over from the one that failed
+                    m3 = s2.wire.mark()
+                    s2.call("deletescript", "after")
+                    sent3 = s2.wire.sent_since(m3)
+                    res.count("calls-right-after-a-write-fault")
+                    if sent3 != b'DELETESCRIPT "after"\r\n':
+                        badw = ("call-after-a-write-fault-writes-something-else",
+                                "wrote %r" % sent3[:200])
                 res.monitor("write-fault", badw is not None)
                 if badw:
                     res.violation({"defect": badw[0], "trigger": "write-fault"},
